@@ -41,6 +41,26 @@ void harness::run_case(const eng::Raw& raw, eng::Ctx& ctx)
 		else { a = lib::build(c.A, c.orderA, c.numA); b = lib::build(c.B, c.orderB, c.numB); }
 	}
 	inclc::check_all_explicit(ctx, a, b, want, expect);
+	// a pair of objects that SHARE their rule storage: a copy of A (rules only) with other final states; the verdict
+	// must follow the values, in both directions (a quarter of the cases)
+	if (c.header[7] % 4 == 1) {
+		const ref::TA VA = [&] { std::map<int,int> m; for (int q : c.A.states()) m[q] = static_cast<int>(c.numA(q)); return c.A.image(m); }();
+		ref::TA VC;
+		VC.rules = VA.rules;
+		for (int q : VA.states()) if (gen::mix(c.header[6], static_cast<uint64_t>(q) + 11) % 2) VC.finals.insert(q);
+		VATA::ExplicitTreeAut cpy;
+		{
+			eng::LibSection ls(ctx, "copy-with-own-finals");
+			cpy = VATA::ExplicitTreeAut(a, true, false);
+			for (int q : VC.finals) cpy.SetStateFinal(static_cast<size_t>(q));
+		}
+		ref::InclResult e1, e2;
+		if (inclc::reference_verdict(ctx, VA, VC, e1) && inclc::reference_verdict(ctx, VC, VA, e2)) {
+			ctx.tag("shared-storage-pair");
+			inclc::check_all_explicit(ctx, a, cpy, e1.verdict == ref::Tri::YES, e1);
+			inclc::check_all_explicit(ctx, cpy, a, e2.verdict == ref::Tri::YES, e2);
+		}
+	}
 	// the converse question on the same pair, in the same child (doubles the verdicts per generated case)
 	ref::InclResult expect2;
 	if (!inclc::reference_verdict(ctx, c.B, c.A, expect2)) return;
